@@ -13,7 +13,8 @@ STDEV_INV = {
                   " == Sigma(Max(s, j - period + 1), j + 1, lambda t: num(Rd(c, t, X))))", ["C05"]),
     "data-variance": ("implies(j >= s, isnum(Rd(c, j, f'{N}_data.variance')) and num(Rd(c, j, f'{N}_data.variance')) * period"
                       " == Sigma(Max(s, j - period + 1), j + 1, lambda t: num(Rd(c, t, X)) * num(Rd(c, t, X)))"
-                      " - period * num(Rd(c, j, f'{N}_data.mean')) * num(Rd(c, j, f'{N}_data.mean')))", ["C05"], {"defer": True}),
+                      " - period * num(Rd(c, j, f'{N}_data.mean')) * num(Rd(c, j, f'{N}_data.mean')))", ["C05"],
+                      {"defer_in": ("index",)}),  # proved for the calculate step (with the lemma below); undecided inside the budget for the recompute step
     "presence": ("iff(Rd(c, j, N) is not None, j >= w)", ["C05", "C09"]),
     "type": ("implies(j >= w, isfloat(Rd(c, j, N)))", ["C05", "C09"]),
     "rounded": ROUNDED,
@@ -22,9 +23,21 @@ STDEV_INV = {
     "stdev>=0": ("implies(j >= w, num(Rd(c, j, N)) >= 0)", ["C10"]),
 }
 
+_X0, _XR = "num(Rd(c, j, X))", "(num(Rd(c, j - period, X)) if j >= s + period else 0)"
+_M0, _V0 = "num(Rd(c, j - 1, f'{N}_data.mean'))", "num(Rd(c, j - 1, f'{N}_data.variance'))"
+_M1 = f"({_M0} + ({_X0} - {_XR}) / period)"
+_V1 = f"({_V0} + ({_X0} - {_XR}) * ({_X0} - {_M1} + {_XR} - {_M0}) / period)"
+_S0 = "Sigma(Max(s, j - period), j, lambda t: num(Rd(c, t, X)) * num(Rd(c, t, X)))"
+# the running update of Welford / Salonen: if period * V == sum(x^2) - period * M^2 holds for the previous window, it holds for the
+# window moved by one (x enters, r leaves; r = 0 while the window is still filling)
+STDEV_LEMMAS = {
+    "running-variance-update": ((f"implies(period > 0 and period * {_V0} == {_S0} - period * {_M0} * {_M0},"
+                                 f" period * {_V1} == ({_S0} + {_X0} * {_X0} - {_XR} * {_XR}) - period * {_M1} * {_M1})"), ["data-variance"]),
+}
 SPECS = [
     IndSpec(
         "hexital.indicators.stdev.StandardDeviation",
+        lemmas=STDEV_LEMMAS,
         params=dict(RV, period=("int", None), input_value=("name", None), s=("int", None)),
         ctor={"skip": ("s",)},
         lets=STDEV_LETS,
